@@ -999,6 +999,8 @@ pub fn run(tier: &str, seed: u64, widen: bool) -> Report {
         if fixed { "rejected" } else { "accepted" }
     ));
     rep.hit(if fixed { "tree:fixed" } else { "tree:pinned" });
+    // the conversion side: pointer towers converted implicitly (theorems Props/C14Fit.lean)
+    crate::c14_fit::run(&mut rep, tier, widen);
     let mut cases: Vec<Case> = vec![];
     let thorough = tier == "thorough" || widen;
     // exhaustive part
